@@ -19,7 +19,9 @@ GFInit(ar) ==
      rel |-> -1, hasTarget |-> FALSE, target |-> GFZero, locked |-> FALSE]
 
 GFParams(f) == 0 .. (f.ar - 1)
-GFInclude(f) == (GFParams(f) \ f.optional) \cup f.with
+(* the compiled include mask: type parameters and With components, minus the optional ones *)
+(* (generic/compiled.go: toMaskOptional over all include ids) *)
+GFInclude(f) == (GFParams(f) \cup f.with) \ f.optional
 
 (* Builder methods: "" = accepted, "args" = panics. *)
 GFBuildWhy(f, m, ids) ==
